@@ -162,6 +162,39 @@ class FileTimestamp(Harness):
         return AND(t.timestamp == mtime_link, t.size == size)
 
 
+class Recheck(Harness):
+    """the staleness decision is taken on the timestamp the cache reports *now*: a Tile object that was judged expired once
+    and is asked again after somebody else refreshed the tile (the re-check under the tile lock) counts as fresh"""
+    modules = ['mapproxy.grid', 'mapproxy.cache.tile']
+    functions = ['TileManager.is_cached', 'TileManager.is_stale']
+
+    @classmethod
+    def build(cls, L, cfg):
+        return dict(t=L.mods['mapproxy.cache.tile'], G=common.make_grid(L.mods['mapproxy.grid'], 'merc_ll'))
+
+    @classmethod
+    def inputs(cls, ctx, cfg):
+        T, ts1, ts2 = int_var('T'), real_var('ts_before'), real_var('ts_after')
+        assume(AND(T >= 0, ts1 >= 0, ts2 >= 0))
+        return dict(T=T, ts1=ts1, ts2=ts2)
+
+    @classmethod
+    def prop(cls, ctx, cfg, T, ts1, ts2):
+        t, G = ctx['t'], ctx['G']
+        ev = []
+        c = (1, 1, 2)
+        stamps = {c: ts1}
+        cache = tmstub.RecCache(ev, {c: True}, stamps)
+        mgr = t.TileManager(G, cache, [], 'png', tmstub.RecLocker(ev))
+        mgr._expire_timestamp = T
+        tile = t.Tile(c)
+        first = mgr.is_cached(tile)
+        stamps[c] = ts2                      # a concurrent request rewrote the tile
+        second = mgr.is_cached(tile)         # same Tile object, as in TileCreator._create_single_tile
+        ok = AND(IMPLIES(ts1 >= T + 1, first), IMPLIES(ts1 <= T, NOT(first)))
+        return AND(ok, IMPLIES(ts2 >= T + 1, second), IMPLIES(ts2 <= T, NOT(second)))
+
+
 class RestoreLinkedTile(Harness):
     """file cache with link_single_color_images: the timestamp of a tile is the mtime of its own directory entry, so
     every store -- also a refresh that yields the same colour again -- must create that entry anew (link/symlink or a
@@ -444,6 +477,7 @@ def obligations(tier, seed):
     for d in (deltas if tier == 'thorough' else deltas[:2]):
         specs.append(spec(MOD, 'RelativeThreshold', 'relative-threshold/%s' % '-'.join('%s%s' % kv for kv in d.items()), cfg=dict(delta=d)))
     specs.append(spec(MOD, 'AbsoluteThreshold', 'mtime-threshold-follows-file', cfg={}))
+    specs.append(spec(MOD, 'Recheck', 'recheck-uses-the-current-timestamp', cfg={}))
     for via in ('store_tile', 'store_tiles'):
         specs.append(spec(MOD, 'StoreTimestamp', 'sqlite-store-records-now/%s' % via, cfg=dict(via=via)))
     for link in ('symlink', 'hardlink'):
@@ -473,7 +507,7 @@ META = dict(
                 'request, any expired => exactly one request storing all four tiles; relative thresholds are re-evaluated '
                 'against the clock on every call (threshold = floor(now - delta)); an mtime rule reads the marker file on every '
                 'decision (three successive decisions with three arbitrary modification times).',
-    functions=Refresh.functions + RelativeThreshold.functions + AbsoluteThreshold.functions + RestoreLinkedTile.functions + FileTimestamp.functions + StoreTimestamp.functions,
+    functions=Refresh.functions + RelativeThreshold.functions + AbsoluteThreshold.functions + Recheck.functions + RestoreLinkedTile.functions + FileTimestamp.functions + StoreTimestamp.functions,
     bounds='timestamps >= 0, thresholds whole seconds >= 0; single tile and one 2x2 meta tile; one request; clock: two arbitrary '
            'non-decreasing instants',
     outside='the sub-second band ts in (T, T+1) (documented truncation, either behaviour accepted), mktime/strptime (C library; '
